@@ -164,6 +164,7 @@ var (
 // SetupInline computes InlineSite/InlinedAt for the functions of the module.
 func SetupInline(p *Prog) {
 	envProg = p
+	soleCache = map[types.Type]*types.Named{}
 	InlineSite = map[*ssa.Function]ssa.Instruction{}
 	InlinedAt = map[ssa.Instruction]*ssa.Function{}
 	uses := map[*ssa.Function]int{}
@@ -309,6 +310,59 @@ func EnvFieldStores(fa *ssa.FieldAddr) (vals []ssa.Value, ok bool) {
 }
 
 var envProg *Prog
+
+var soleCache = map[types.Type]*types.Named{}
+
+// soleConcrete: t is an unexported named interface type of the module and every
+// value converted to it anywhere in the module has one and the same named
+// concrete type: that type, else nil.
+func soleConcrete(t types.Type) *types.Named {
+	nt, ok := t.(*types.Named)
+	if !ok || envProg == nil || nt.Obj().Exported() || nt.Obj().Pkg() == nil || !strings.HasPrefix(nt.Obj().Pkg().Path(), ModulePath) {
+		return nil
+	}
+	if _, isI := nt.Underlying().(*types.Interface); !isI {
+		return nil
+	}
+	if r, ok := soleCache[t]; ok {
+		return r
+	}
+	var found *types.Named
+	many := false
+	for _, fn := range envProg.Funcs {
+		Instrs(fn, func(in ssa.Instruction) {
+			var from types.Type
+			switch x := in.(type) {
+			case *ssa.MakeInterface:
+				if types.Identical(x.Type(), t) {
+					from = x.X.Type()
+				}
+			case *ssa.ChangeInterface:
+				if types.Identical(x.Type(), t) {
+					many = true
+				}
+			case *ssa.TypeAssert:
+				if types.Identical(x.AssertedType, t) {
+					many = true
+				}
+			}
+			if from == nil {
+				return
+			}
+			c, _ := Deref(from).(*types.Named)
+			if c == nil || (found != nil && found != c) {
+				many = true
+				return
+			}
+			found = c
+		})
+	}
+	if many {
+		found = nil
+	}
+	soleCache[t] = found
+	return found
+}
 var envBusy bool
 
 // Deref strips one pointer level.
@@ -768,6 +822,14 @@ func InfoOf(c *ssa.CallCommon) CallInfo {
 		if ci.Pkg == "" { // e.g. error.Error
 			if n, ok := c.Value.Type().(*types.Named); ok && n.Obj().Pkg() != nil {
 				ci.Pkg = n.Obj().Pkg().Path()
+			}
+		}
+		// a private interface of the module that only ever holds one concrete type (a seam introduced by a
+		// clean-up): the call is that type's method in all but name
+		if nt := soleConcrete(c.Value.Type()); nt != nil {
+			ci.Recv = NamedOf(nt)
+			if nt.Obj().Pkg() != nil {
+				ci.Pkg = nt.Obj().Pkg().Path()
 			}
 		}
 		return ci
